@@ -89,6 +89,13 @@ var c15Check = register("C15", "c15.error", func(c *errCase) error {
 		if errors.Is(err, bip39.ErrWordLen) || errors.Is(err, bip39.ErrChecksumIncorrect) || errors.Is(err, bip39.ErrEntropyLen) {
 			return failf(sig+" sentinel", "CheckMnemonic(%q, %s) = %v (a sentinel) although the count is acceptable and %q is not in the list", s, l, err, unknown[0])
 		}
+		// a later failing validation must not rewrite the error already returned
+		before := err.Error()
+		implCheck("verifafter# "+s, implLang[l])
+		implCheck("verifafter#"+strings.TrimPrefix(ref.NFKD(s), toks[0]), implLang[l])
+		if after := err.Error(); after != before {
+			return failf(sig+" error-rewritten", "the error returned by CheckMnemonic(%q, %s) read %q, but after a later failing call the same error value reads %q", s, l, before, after)
+		}
 		named := false
 		for _, u := range unknown {
 			if strings.Contains(err.Error(), u) {
@@ -102,7 +109,7 @@ var c15Check = register("C15", "c15.error", func(c *errCase) error {
 	return nil
 })
 
-const c15Rule = "C15: valid sentences damaged by exactly one defect class, re-classified by the reference model before use: (i) k list words for every k in 0..40 outside {12,15,18,21,24}; (ii) right count, all list words, wrong checksum (any last word / checksum bits only / leading-zero entropies with the truncated-entropy checksum); (iii) acceptable count with 1..n tokens replaced by non-empty, whitespace-free strings not in the list (words of other lists, case/affix damage, arbitrary Unicode, invalid UTF-8), checksum arbitrary; (iv) valid sentences; (v) a valid sentence judged under another language immediately after being accepted under its own (class re-derived by the reference). Oracle: errors.Is against the sentinels; for (iii) a non-sentinel error whose message contains an unknown token. Non-trivial: classes (i)-(iii) outside English 12-word sentences; distinct by (language, text)"
+const c15Rule = "C15: valid sentences damaged by exactly one defect class, re-classified by the reference model before use: (i) k list words for every k in 0..40 outside {12,15,18,21,24}; (ii) right count, all list words, wrong checksum (any last word / checksum bits only / leading-zero entropies with the truncated-entropy checksum); (iii) acceptable count with 1..n tokens replaced by non-empty, whitespace-free strings not in the list (words of other lists, case/affix damage, arbitrary Unicode, invalid UTF-8), checksum arbitrary; (iv) valid sentences; (v) a valid sentence judged under another language immediately after being accepted under its own (class re-derived by the reference). One case in four is written with compatibility spaces (U+00A0, U+2000..U+200A, U+202F, U+205F, U+3000) between words. Oracle: errors.Is against the sentinels; for (iii) a non-sentinel error whose message contains an unknown token. Non-trivial: classes (i)-(iii) outside English 12-word sentences; distinct by (language, text)"
 
 func TestC15_Errors(t *testing.T) {
 	cov.Rule(c15Rule)
@@ -210,6 +217,22 @@ func TestC15_Errors(t *testing.T) {
 				s = strings.Join(words, " ")
 				cov.Class("unknown-fallback")
 			}
+		}
+		if rapid.IntRange(0, 3).Draw(rt, "compat-separators") == 0 {
+			// tokens are defined on the NFKD form: any compatibility space is a separator too
+			if rapid.Bool().Draw(rt, "one-kind") {
+				s = strings.ReplaceAll(s, " ", string(rapid.SampledFrom(gen.NFKDSpaces).Draw(rt, "space")))
+			} else {
+				var b strings.Builder
+				for _, r := range s {
+					if r == ' ' && rapid.Bool().Draw(rt, "swap") {
+						r = rapid.SampledFrom(gen.NFKDSpaces).Draw(rt, "sp")
+					}
+					b.WriteRune(r)
+				}
+				s = b.String()
+			}
+			cov.Class("compat-space-separators")
 		}
 		c := &errCase{Lang: l.Name(), Text: text(s), Want: want}
 		if want == "valid" && rapid.Bool().Draw(rt, "then-other-language") {
